@@ -275,19 +275,24 @@ func (a *Allocator) Allocate(sz int) []byte {
 		return nil
 	}
 	for {
+		verifPoint(0, uint64(sz), 0) // verif: before the atomic add
 		pos := atomic.AddUint64(&a.compIdx, uint64(sz))
+		verifPoint(1, pos, uint64(sz)) // verif: after the atomic add
 		bufIdx, posIdx := parse(pos)
 		buf := a.buffers[bufIdx]
 		if posIdx > len(buf) {
 			a.Lock()
+			verifPoint(2, pos, uint64(sz)) // verif: slow path, lock taken
 			newPos := atomic.LoadUint64(&a.compIdx)
 			newBufIdx, _ := parse(newPos)
 			if newBufIdx != bufIdx {
+				verifPoint(3, newPos, pos) // verif: decision = retry
 				a.Unlock()
 				continue
 			}
 			a.addBufferAt(bufIdx+1, sz)
 			atomic.StoreUint64(&a.compIdx, uint64((bufIdx+1)<<32))
+			verifPoint(4, uint64(bufIdx+1), uint64(len(a.buffers[bufIdx+1]))) // verif: decision = next chunk published
 			a.Unlock()
 			// We added a new buffer. Let's acquire slice the right way by going back to the top.
 			continue
